@@ -153,7 +153,25 @@ def core_jump(rng, loops):
     return f"{kind};"
 
 
+IF_END = "\x00"   # marks the last line of a statement-level `if` (see core_stmts)
+NO_CONT = ("let ", "while ", "loop ", "if ", "L", "{", "}", "break", "continue")
+
+
 def core_stmts(rng, names, depth, lines, ind, counter, core_expr=None, loops=()):
+    """statements of the core fragment appended to `lines` (see _core_stmts).  A statement-level `if` is an expression statement:
+    a following line that starts with `(`, `-`, … would continue it (a call, a subtraction), so it gets its `;` unless the
+    next line starts with a keyword, a label or a brace (then, half of the time, it has none)"""
+    start = len(lines)
+    names = _core_stmts(rng, names, depth, lines, ind, counter, core_expr, loops)
+    for j in range(start, len(lines)):
+        if lines[j].endswith(IF_END):
+            l = lines[j][:-1]
+            nxt = lines[j + 1].lstrip() if j + 1 < len(lines) else "("
+            lines[j] = l + (";" if not nxt.startswith(NO_CONT) or rng.random() < 0.5 else "")
+    return names
+
+
+def _core_stmts(rng, names, depth, lines, ind, counter, core_expr=None, loops=()):
     core_expr = core_expr or globals()["core_expr"]
     """statements of the core fragment: let, expression statements, blocks, `while` / `loop` with bounded counters and optional
     labels, `if` with statement blocks in statement position, break / continue (plain and labelled) under such an `if`;
@@ -172,32 +190,32 @@ def core_stmts(rng, names, depth, lines, ind, counter, core_expr=None, loops=())
                 c = core_expr(rng, names, 2)
                 form = rng.random()
                 if form < 0.5:
-                    lines.append(f"{ind}if {c} {{ {core_jump(rng, loops)} }}")
+                    lines.append(f"{ind}if {c} {{ {core_jump(rng, loops)} }}" + IF_END)
                 elif form < 0.75:
-                    lines.append(f"{ind}if {c} {{ {core_expr(rng, names, 2)}; {core_jump(rng, loops)} }} else {{ {core_expr(rng, names, 2)} }}")
+                    lines.append(f"{ind}if {c} {{ {core_expr(rng, names, 2)}; {core_jump(rng, loops)} }} else {{ {core_expr(rng, names, 2)} }}" + IF_END)
                 else:
-                    lines.append(f"{ind}if {c} {{ {core_expr(rng, names, 2)} }} else if {core_expr(rng, names, 2)} {{ {core_jump(rng, loops)} }} else {{ let q = {core_expr(rng, names, 2)}; }}")
+                    lines.append(f"{ind}if {c} {{ {core_expr(rng, names, 2)} }} else if {core_expr(rng, names, 2)} {{ {core_jump(rng, loops)} }} else {{ let q = {core_expr(rng, names, 2)}; }}" + IF_END)
             else:
                 lines.append(f"{ind}{core_expr(rng, names, 3)};")
         elif r < 0.68:
             lines.append(ind + "{")
-            core_stmts(rng, names, depth + 1, lines, ind + "  ", counter, core_expr, loops)
+            _core_stmts(rng, names, depth + 1, lines, ind + "  ", counter, core_expr, loops)
             lines.append(ind + "}")
         elif r < 0.78:
             # `if` with statement blocks in statement position
             lines.append(f"{ind}if {core_expr(rng, names, 2)} {{")
-            core_stmts(rng, names, depth + 1, lines, ind + "  ", counter, core_expr, loops)
+            _core_stmts(rng, names, depth + 1, lines, ind + "  ", counter, core_expr, loops)
             form = rng.random()
             if form < 0.4:
-                lines.append(ind + "}")
+                lines.append(ind + "}" + IF_END)
             elif form < 0.8:
                 lines.append(ind + "} else {")
-                core_stmts(rng, names, depth + 1, lines, ind + "  ", counter, core_expr, loops)
-                lines.append(ind + "}")
+                _core_stmts(rng, names, depth + 1, lines, ind + "  ", counter, core_expr, loops)
+                lines.append(ind + "}" + IF_END)
             else:
                 lines.append(f"{ind}}} else if {core_expr(rng, names, 2)} {{")
-                core_stmts(rng, names, depth + 1, lines, ind + "  ", counter, core_expr, loops)
-                lines.append(ind + "}")
+                _core_stmts(rng, names, depth + 1, lines, ind + "  ", counter, core_expr, loops)
+                lines.append(ind + "}" + IF_END)
         else:
             counter[0] += 1
             i = f"i{counter[0]}"
@@ -212,8 +230,8 @@ def core_stmts(rng, names, depth, lines, ind, counter, core_expr=None, loops=())
             else:
                 lines.append(f"{ind}{head}loop {{")
                 lines.append(f"{ind}  {i} = {i} + 1;")
-                lines.append(f"{ind}  if {i} > {k} {{ break; }}")
-            core_stmts(rng, names, depth + 1, lines, ind + "  ", counter, core_expr, tuple(loops) + (lab,))
+                lines.append(f"{ind}  if {i} > {k} {{ break; }}" + IF_END)
+            _core_stmts(rng, names, depth + 1, lines, ind + "  ", counter, core_expr, tuple(loops) + (lab,))
             lines.append(ind + "}")
     return names
 
